@@ -2,11 +2,12 @@
 # Development aid: runs quick checks against every behaviour-preserving patch of
 # benign/ (each applied to a scratch worktree of /repo HEAD through
 # tools/seedtest.sh); every line must say exit=0.
-#   tools/benigntest.sh [check ids...]      (default: the checks named in benign/README.md for that patch)
+#   [BENIGN_FILTER=substring] tools/benigntest.sh [check ids...]      (default: the checks named in benign/README.md for that patch)
 cd /verif
 bad=0
 for p in benign/*.diff; do
   n=$(basename "$p" .diff)
+  case "$n" in *${BENIGN_FILTER:-}*) ;; *) continue ;; esac
   if [ $# -gt 0 ]; then list="$*"; else
     list=$(grep -F "| ${n} |" benign/README.md | awk -F'|' '{print $(NF-1)}' | sed 's/C04-C17/C04 C05 C06 C07 C08 C09 C10 C11 C12 C13 C14 C15 C16 C17/; s/C04-C16/C04 C05 C06 C07 C08 C09 C10 C11 C12 C13 C14 C15 C16/')
   fi
